@@ -5,6 +5,8 @@ package main
 // code) a walk takes every iterator call from every cursor position, both sentinels included.
 
 import (
+	"math/rand"
+
 	"github.com/emirpasic/gods/v2/lists/arraylist"
 	"github.com/emirpasic/gods/v2/lists/doublylinkedlist"
 	"github.com/emirpasic/gods/v2/lists/singlylinkedlist"
@@ -285,6 +287,8 @@ func guidePos(seq [][]int, pos int, c curCall) int {
 	return pos
 }
 
+var skipRead = rand.New(rand.NewSource(7))
+
 func cursorWalk(j *jobCtx, x Inst, maxSteps int) { cursorWalkAt(j, x, maxSteps, -1) }
 
 // at >= 0: the iterator is created with RedBlackTree.IteratorAt(GetNode(key at position `at`))
@@ -361,8 +365,9 @@ func cursorWalkAt(j *jobCtx, x Inst, maxSteps int, at int) {
 			case "PrevTo":
 				ret = cur.prevTo(c.p)
 			}
-			// values are read only after a move that returned true
-			if ret && c.op != "Begin" && c.op != "End" {
+			// values are read only after a move that returned true - and not after every such move:
+			// a caller may step several times before looking
+			if ret && c.op != "Begin" && c.op != "End" && skipRead.Intn(3) != 0 {
 				a, b = cur.read()
 				has = true
 			}
@@ -454,6 +459,46 @@ func jobCursor(j *jobCtx) {
 	for _, u := range us {
 		x0 := u.New()
 		paths := enumStates(u, pick(150, 3000), isMut(x0))
+		// one larger state per universe: deeper trees, wider heap levels with ties, longer chains
+		var big []Call
+		switch t := x0.(type) {
+		case *seqInst:
+			big = append(big, Call{Op: "Add", Vs: rangeInts(0, 12)})
+		case *queInst:
+			put := "Enqueue"
+			if queDisc(t.kind) == "lifo" {
+				put = "Push"
+			}
+			for i := 0; i < 10 && (t.kind != "circularbuffer" || i < t.cap+2); i++ {
+				big = append(big, Call{Op: put, V: i % 4})
+			}
+		case *heapInst:
+			put := "Push"
+			if t.kind == "priorityqueue" {
+				put = "Enqueue"
+			}
+			for i := 0; i < 11; i++ { // equal priorities: three or more ties on every level
+				big = append(big, Call{Op: put, Vs: []int{10*(1+i/8) + i%8}})
+			}
+		case *setInst:
+			big = append(big, Call{Op: "Add", Vs: rangeInts(20, 0)})
+		case *mapInst:
+			if !mapBidi(t.kind) {
+				n := 24
+				if t.kind == "btree" {
+					n = 45
+				}
+				for i := 0; i < n; i++ {
+					big = append(big, Call{Op: "Put", I: (i * 7) % n, V: i})
+				}
+				for i := 0; i < n/3; i++ {
+					big = append(big, Call{Op: "Remove", I: (i * 5) % n})
+				}
+			}
+		}
+		if big != nil {
+			paths = append(paths, big)
+		}
 		for _, p := range paths {
 			if budgetExceeded() {
 				extraStats["tour_truncated"] = true
